@@ -89,6 +89,10 @@ func (i *interpreter) fmtOperand(fr *frame, spec string, verb byte, arg value, d
 	}
 	// error / Stringer
 	if itf.t != nil && (verb == 'v' || verb == 's' || verb == 'q') {
+		if p, isPtr := v.(*value); isPtr && p == nil {
+			// fmt prints a nil receiver as <nil> (it recovers the panic of the String method)
+			return str("<nil>")
+		}
 		if !strings.Contains(spec, "#") {
 			if s, ok := i.callMethod(fr, itf, "Error"); ok {
 				return i.fmtString(spec, verb, s)
